@@ -217,6 +217,9 @@ func genFuzz(g *G, repo string, n int, out io.Writer) {
 		emit("hostile-data", okProfile, d)
 		emit("hostile-data", okProfile, d)
 	}
+	for _, d := range badIriData() {
+		emit("hostile-iri", okProfile, d)
+	}
 	for k, d := range sourceMapHostile() {
 		// a profile that reports the target nodes, so locations are looked up
 		_ = k
@@ -244,4 +247,24 @@ func genFuzz(g *G, repo string, n int, out io.Writer) {
 			}
 		}
 	}
+}
+
+// badIriData: IRI references no URL parser accepts (bad percent escapes, missing scheme before the colon, unbalanced
+// brackets, control characters), at every position an IRI can stand, with and without a base IRI to resolve against
+func badIriData() []string {
+	bad := []string{"%xsd:boolean", "%", "%zz", "http://[::1", "http://a b/", ":foo", "http://a/\u007f", "http://a/%", "#%", "?%gg", "//[", "1http:", "http://h:port/", "a%2", "\u0000"}
+	var out []string
+	for _, b := range bad {
+		q := "\"" + b + "\""
+		for _, ctx := range []string{`"@context":{"@base":"amf://id#"},`, ``, `"@context":{"@vocab":"http://v/","@base":"http://h/p/"},`} {
+			out = append(out,
+				`{`+ctx+`"@id":`+q+`,"@type":"http://ex.org/v#T"}`,
+				`{`+ctx+`"@id":"http://a","@type":"http://ex.org/v#T","http://ex.org/v#p0":{"@id":`+q+`}}`,
+				`{`+ctx+`"@id":"http://a","@type":`+q+`}`,
+				`{`+ctx+`"@id":"http://a","@type":"http://ex.org/v#T",`+q+`:1}`,
+				`{`+ctx+`"@graph":[{"@id":"http://a","http://ex.org/v#p0":{"@value":"x","@type":`+q+`}}]}`)
+		}
+		out = append(out, `{"@context":{"@base":`+q+`},"@id":"x","@type":"http://ex.org/v#T"}`, `{"@context":{"t":{"@id":`+q+`}},"@id":"http://a","t":1}`, `{"@context":{"@vocab":`+q+`},"@id":"http://a","t":1}`)
+	}
+	return out
 }
